@@ -474,7 +474,15 @@ impl<SD, E: Exfiltrator> SignalIterator<SD, E> {
 
             match self.signals.borrow_mut().poll_pending(has_signals) {
                 Ok(Some(pending)) => self.iter = pending,
-                Ok(None) => return PollResult::Pending,
+                Ok(None) => {
+                    // `None` is also what `poll_pending` answers when it notices the instance got
+                    // closed in the meantime, in which case it did not consult the callback and
+                    // the caller has no wakeup armed ‒ that must not be reported as pending.
+                    if self.signals.borrow_mut().handle.is_closed() {
+                        break;
+                    }
+                    return PollResult::Pending;
+                }
                 Err(err) => return PollResult::Err(err),
             }
         }
